@@ -15,7 +15,9 @@ CONSTANTS
  OwnSet = {TRUE, FALSE}
  GrpSet = {TRUE, FALSE}
  ChmodSet = {TRUE}
+ TailSet = {"data"}
+ NoSparseSet = {FALSE}
  NoWarnSet = {FALSE}
 INVARIANTS NoOverwrite NonRegularNeverWritten StrictRefusal ModeSafe ModeNoSpecial ModeExact
- ModeRestricted OwnerGroupTimes KeepKeeps RemovedOnlyOnSuccess RemovedOnSuccess ExitOK CreateExclusive
+ ModeRestricted OwnerGroupTimes KeepKeeps RemovedOnlyOnSuccess RemovedOnSuccess ExitOK CreateExclusive NoWriteAfterTimes HoleFinished StdinTouchesNothing
 CHECK_DEADLOCK FALSE
